@@ -66,6 +66,8 @@ def explore_block(acc, cfg, depth):
     reps = {}
     k0 = (bkey(blk), tuple(sorted(model0.items())))
     reps[k0] = blk
+    twin, twin_model = make_block(cfg)        # never operated on: must stay as built whatever happens to the others
+    twin_key = bkey(twin)
 
     def bclass(a, c):
         if a < lo:
@@ -85,6 +87,10 @@ def explore_block(acc, cfg, depth):
                     yield ('g', a, c)
                     for gen in (1, 2):
                         yield ('s', a, tuple(gen * 1000 + a + i for i in range(c)))
+                    if c == 1:
+                        yield ('s1', a, 3000 + a)                 # scalar form: setValues(address, value)
+                    if cfg[0].startswith('sparse') and c == 2:
+                        yield ('sd', a, (4000 + a, 4001 + a))      # sparse blocks also take {address: value}
         yield ('r',)
         yield ('i',)
 
@@ -99,6 +105,15 @@ def explore_block(acc, cfg, depth):
                 obs = ('g', list(b.getValues(ev[1], ev[2])))
             elif ev[0] == 's':
                 b.setValues(ev[1], list(ev[2]))
+                for i, v in enumerate(ev[2]):
+                    model[ev[1] + i] = v
+                obs = ('s',)
+            elif ev[0] == 's1':
+                b.setValues(ev[1], ev[2])
+                model[ev[1]] = ev[2]
+                obs = ('s',)
+            elif ev[0] == 'sd':
+                b.setValues(ev[1], dict((ev[1] + i, v) for i, v in enumerate(ev[2])))
                 for i, v in enumerate(ev[2]):
                     model[ev[1] + i] = v
                 obs = ('s',)
@@ -119,13 +134,15 @@ def explore_block(acc, cfg, depth):
     def on_edge(s, ev, nxt, obs, path):
         model = dict(s[1])
         w = dict(block=cfgname, history=[list(e) for e in path(s)] + [list(ev)])
-        op = {'v': 'validate', 'g': 'getValues', 's': 'setValues', 'r': 'reset', 'i': 'iterate'}[ev[0]]
+        op = {'v': 'validate', 'g': 'getValues', 's': 'setValues', 's1': 'setValues-scalar', 'sd': 'setValues-dict', 'r': 'reset', 'i': 'iterate'}[ev[0]]
 
         def bad(what, msg, bc='n/a'):
             acc.violation('C18/%s/%s/%s/%s' % (cname, op, what, bc), w, msg, cfgname)
         if obs[0] == 'raise':
             bad('raise:' + obs[1], obs[2], bclass(ev[1], ev[2]) if ev[0] in 'vg' else 'n/a')
             return
+        if bkey(twin) != twin_key:
+            bad('other-object-affected', 'an untouched block of the same configuration changed')
         if ev[0] == 'v':
             want = all((ev[1] + i) in model for i in range(ev[2]))
             if obs[1] != want:
@@ -138,7 +155,7 @@ def explore_block(acc, cfg, depth):
         elif ev[0] == 'i':
             if obs[1] != sorted(model.items()):
                 bad('wrong-items', 'list(block) = %r, expected %r' % (obs[1][:6], sorted(model.items())[:6]))
-        if ev[0] in 'sr':
+        if ev[0] in ('s', 's1', 'sd', 'r'):
             # the block must now hold exactly the model: same extent, same contents
             b = reps[nxt]
             m2 = dict(nxt[1])
@@ -251,13 +268,18 @@ def explore_server(acc, single, init_ids, depth):
             first = tag(0)
             sc = ModbusServerContext(slaves=first, single=True)
             model = {'single': 'ctx0'}
+        elif init_ids == 'no-arg':
+            sc = ModbusServerContext(single=False)          # built without a slaves argument
+            model = {}
         else:
             d = dict((i, tag(i)) for i in init_ids)
             sc = ModbusServerContext(slaves=d, single=False)
             model = dict((i, 'ctx%d' % i) for i in init_ids)
+        by = ModbusServerContext(single=False)              # a bystander context built the same way: never touched
         obs = None
         for n, ev in enumerate(hist):
             obs = apply(sc, model, names, tag, ev, 100 + n)
+        sc._bystander = by
         return sc, model, names, obs
 
     def apply(sc, model, names, tag, ev, n):
@@ -310,7 +332,7 @@ def explore_server(acc, single, init_ids, depth):
             if isinstance(v, (list, tuple)):
                 return tuple(nm(x) for x in v)
             return repr(v)
-        return tuple(sorted((k, nm(v)) for k, v in vars(sc).items()))
+        return tuple(sorted((k, nm(v)) for k, v in vars(sc).items() if k != '_bystander'))
 
     def check(objs, hist):
         if not hist:
@@ -355,6 +377,9 @@ def explore_server(acc, single, init_ids, depth):
             want = sorted(model.items()) if op == 'iter' else sorted(model)
             if obs != ('ok', want):
                 bad('wrong-listing', '%s -> %r, expected %r' % (op, obs, want))
+        by = getattr(sc, '_bystander', None)
+        if by is not None and (by.slaves() or list(by)):
+            bad('other-object-affected', 'an untouched server context now hosts %r' % (by.slaves(),))
         # registered map must be the model
         if not single:
             reg = dict((k, names.get(id(v), '?')) for k, v in sc._slaves.items())
@@ -384,7 +409,7 @@ def run(tier, seed):
     shards = [('block', c, depth) for c in block_configs(tier)]
     shards += [('slave', z, s) for z in (False, True) for s in (False, True)]
     sdepth = 3 if tier == 'quick' else 4
-    shards += [('server', True, (), sdepth)] + [('server', False, ids, sdepth) for ids in ((), (1,), (1, 2), (0, 247))]
+    shards += [('server', True, (), sdepth)] + [('server', False, ids, sdepth) for ids in ((), 'no-arg', (1,), (1, 2), (0, 247))]
     acc = par.run_shards(shard, shards)
     acc.n['traces_validated_against_impl'] = acc.n.get('transitions', 0)
     acc.n['evaluations'] = acc.n.get('transitions', 0)
@@ -417,7 +442,7 @@ def replay(w):
         vs = [v for v in acc.violations if v['witness'] == w]
     else:
         single = 'single=True' in w['ctx']
-        for ids in ((), (1,), (1, 2), (0, 247)):
+        for ids in ((), 'no-arg', (1,), (1, 2), (0, 247)):
             if single or ('init=%s' % (ids,)) in w['ctx']:
                 explore_server(acc, single, ids, len(w['history']))
                 break
